@@ -173,6 +173,11 @@ func c08File(c *fw.C) {
 	if d.Failed {
 		return
 	}
+	if c.R.Chance(1, 2) {
+		if !c08FileOverlap(c, d, dir) {
+			return
+		}
+	}
 	d.Persist()
 	ents, _ := os.ReadDir(dir)
 	for _, en := range ents {
@@ -188,6 +193,92 @@ func c08File(c *fw.C) {
 		}
 		c.NonTrivial(fw.StrHash("file" + en.Name()))
 	}
+}
+
+// c08FileOverlap: several trees with the contents of d, built independently and
+// not yet persisted, are persisted into the same directory at the same moment, so
+// that Stores of the same names overlap on the real backend. Each persist must
+// succeed and name the same root (the contents and configuration are the same);
+// the caller then reads the directory: whatever the overlap, a name must hold
+// exactly the bytes that hash to it.
+func c08FileOverlap(c *fw.C, d *Driver, dir string) bool {
+	g := c.R.Range(2, 5)
+	trees := make([]*mast.Mast, 0, g)
+	ctx := d.E.Ctx
+	for i := 0; i < g; i++ {
+		e := kinds.NewEnv(d.E.Cfg)
+		e.Persist = file.NewPersistForPath(dir)
+		e.Store = nil
+		e.Cache = kinds.MakeCache(cacheSet[c.R.Intn(3)])
+		t, err := e.New()
+		if err != nil {
+			return false
+		}
+		for _, j := range c.R.Perm(d.M.Len()) {
+			if err := t.Insert(ctx, d.M.Keys[j], deepCopy(d.M.Vals[j])); err != nil {
+				return false
+			}
+		}
+		trees = append(trees, t)
+	}
+	roots := make([]*mast.Root, g)
+	errs := make([]error, g)
+	start := make(chan struct{})
+	var wg sync.WaitGroup
+	for i := range trees {
+		wg.Add(1)
+		go func(i int) {
+			defer wg.Done()
+			<-start
+			roots[i], errs[i] = trees[i].MakeRoot(ctx)
+		}(i)
+	}
+	close(start)
+	wg.Wait()
+	c.Obs("overlapping_file_persists", int64(g))
+	var first *string
+	failed, seen := false, false
+	for i := range trees {
+		if errs[i] != nil {
+			// a persist that fails is outside C08's statement (C18 decides the
+			// store contract); what the directory holds is still judged below
+			c.Obs("overlapping_file_persists_failed", 1)
+			failed = true
+			continue
+		}
+		if !seen {
+			first, seen = roots[i].Link, true
+			continue
+		}
+		a, b := "<nil>", "<nil>"
+		if first != nil {
+			a = *first
+		}
+		if roots[i].Link != nil {
+			b = *roots[i].Link
+		}
+		if a != b {
+			c.Violation("C08.root_name_identifies_contents", map[string]string{"dir": "same_contents_different_names", "backend": "file-overlap"},
+				"%d trees with the same %d entries and configuration, persisted at once, were named %s and %s | cfg{%s}", g, d.M.Len(), a, b, d.E.Cfg)
+			return false
+		}
+	}
+	// every name must also load back, through the backend, as bytes hashing to it
+	p := file.NewPersistForPath(dir)
+	ents, _ := os.ReadDir(dir)
+	for _, en := range ents {
+		b, err := p.Load(ctx, en.Name())
+		if err != nil {
+			continue
+		}
+		if want := ref.Name(b); want != en.Name() {
+			c.Violation("C08.name_is_hash_of_bytes", map[string]string{"format": string(d.E.Cfg.Format), "backend": "file-overlap"},
+				"after %d overlapping persists of the same contents the backend loads %q as %d bytes that hash to %q | cfg{%s}", g, en.Name(), len(b), want, d.E.Cfg)
+			return false
+		}
+		c.Obs("node_files_checked", 1)
+	}
+	return !failed
 }
 
 func runC08(c *fw.C) {
